@@ -315,6 +315,9 @@ def run(ctx):
     tox = [c for c in walk_own(cv.node) if isinstance(c, ast.Call) and call_name(c) == "to_xml"]
     ok = len(tox) == 1 and all(kw(tox[0], k) is not None and norm(kw(tox[0], k)) == k for k in ("validate", "pretty_print", "warnings", "enketo"))
     r4.check(ok, "convert:to_xml", "convert() forwards validate/pretty_print/warnings/enketo unchanged to to_xml", cv.loc(tox[0] if tox else None))
+    # ... and the decision to produce itemsets at all is right for external selects at any depth
+    from .c09 import has_external_choices_obligations
+    has_external_choices_obligations(ctx, r4, "C18.R4")
     rules.append(r4)
 
     # ------------------------------------------------------------------ R5
